@@ -5,7 +5,9 @@ FUNCTIONS = ["Table._get_row_indices@value-range", "Table._get_row_indices@name-
 # name-based selectors resolve through the lookup tables: their coherence with the index column across updates is C07's class invariant
 BORROW = [("C07", ["Table.__setitem__", "Table._append_row", "Table._concatenate_table", "Table.__delitem__", "Table.pop", "Table._get_cache", "Table._make_cache",
                    # the endpoints of a name span a:b are resolved by _get_row_index
-                   "Table._get_row_index@int", "Table._get_row_index@str", "Table._get_row_index@tuple2", "Table._get_row_index@tuple3"])]
+                   "Table._get_row_index@int", "Table._get_row_index@str", "Table._get_row_index@tuple2", "Table._get_row_index@tuple3",
+                   # 'regexp::count<<offset' is split by the same function as a row designator
+                   "Table._split_name_count_offset@text"])]
 RAC = "rac/c08.py"
 RAC_BUDGET = {"quick": 60, "thorough": 900}
 RAC_MIN = {"quick": 18749, "thorough": 18749}      # fewer run-time evaluations than this = the harness skipped its work: checker broken, not "held"
@@ -21,8 +23,8 @@ TRUSTED = ["numpy-lite: element-wise comparison of a column with a bound as an u
            "rearrangement; np.array(list) + k shifts element-wise; iteration over a set is an arbitrary duplicate-free enumeration", "Table._get_row_index is assumed by contract here (decided under C07)", "z3 / cvc5"]
 ASSUMPTIONS = ["selectors whose offset shifts outside the table are not constrained by the statement",
                "the constructs of the other selector forms are unreachable under each variant's precondition (obligations of kind `unreachable`)"]
-BOUNDED = ["the first three statements of Table._get_regexp_indices (splitting 'regexp::count<<offset', and the exact-name shortcut = known "
-           "finding K2) are outside the two proved blocks: run-time only; position lists, masks, rows[s1, s2] == rows[s1].rows[s2], "
+BOUNDED = ["the first three statements of Table._get_regexp_indices (the call that splits 'regexp::count<<offset' -- the splitter itself is proved on the six "
+           "spellings, borrowed from C07 -- and the exact-name shortcut = known finding K2) are outside the two proved blocks: run-time only; position lists, masks, rows[s1, s2] == rows[s1].rows[s2], "
            "rows.indices / rows.mask consistency: run-time only"]
 EXPLANATION = ("proved: for a value range lo:hi:'col' the result denotes exactly the rows with lo <= col <= hi (each bound optional, zero "
                "included), in ascending order, in all four bound combinations; for a name span a:b it is the slice from the position of a to "
@@ -30,5 +32,5 @@ EXPLANATION = ("proved: for a value range lo:hi:'col' the result denotes exactly
                "the result is, in ascending order and exactly, the rows whose index name is fully matched and -- with ::count -- whose occurrence "
                "number is the requested one (negative counts from the last occurrence), each shifted by the offset: every row is tested, "
                "each matched name contributes its one row through the proved _get_row_cache, whatever the iteration order of the name set")
-LEVEL_TEXT = "Mixed: value ranges, name spans and the two blocks of the regular-expression selector proved (z3); selector splitting, the exact-name shortcut (K2), lists, masks and composition are run-time contracts. Never claimed as proof."
+LEVEL_TEXT = "Mixed: value ranges, name spans and the two blocks of the regular-expression selector proved (z3); the exact-name shortcut (K2), lists, masks and composition are run-time contracts. Never claimed as proof."
 LEVEL_NOTE = "See TRUSTED / BOUNDED in the evidence file."
